@@ -53,6 +53,9 @@ def main(argv: list[str]) -> int:
                     print(f"recorded: {v['rule']} {v['loc']} {v['key']}\n          {v['msg']}")
             print("re-deriving on the current tree:")
         ctx.guarded(pack.run)
+        from hsverif import generic
+
+        ctx.guarded(generic.run)
         if args.tier == "thorough" and not args.no_selftest and hasattr(pack, "MUTANTS"):
             from hsverif.selftest import run_selftest
 
